@@ -34,6 +34,18 @@ pub struct Case {
     pub from_bit: usize,
     pub to_bit: usize,
     pub steps: Vec<Step>,
+    /// this many further bytes of a fixed pattern follow `bytes` (inputs of a megabyte and more
+    /// without a megabyte of hex in the case file); `to_bit` counts them
+    pub pad_bytes: usize,
+}
+
+fn full_bytes(case: &Case) -> Vec<u8> {
+    let mut v = case.bytes.clone();
+    v.reserve(case.pad_bytes);
+    for i in 0..case.pad_bytes {
+        v.push(((i * 31 + 7) % 251) as u8);
+    }
+    v
 }
 
 pub struct Cursor;
@@ -139,8 +151,9 @@ impl Sim {
     fn new(case: &Case) -> Sim {
         let mut xs = Xstate::boot().expect("boot");
         xs.intercept_stdout(true);
-        let whole = Xbitstr::from(case.bytes.clone());
-        let total = case.bytes.len() * 8;
+        let all = full_bytes(case);
+        let total = all.len() * 8;
+        let whole = Xbitstr::from(all);
         let to = case.to_bit.min(total);
         let from = case.from_bit.min(to);
         let input = whole.substr(from, to).expect("input range");
@@ -689,9 +702,13 @@ impl Engine for Cursor {
             }
             _ => (rng.below(8).min(total), total),
         };
-        let mut case = Case { bytes, from_bit, to_bit, steps: Vec::new() };
+        // rarely: an input of a megabyte and more (size thresholds in the reading code)
+        let pad_bytes = if rng.chance(1, 15000) { *rng.pick(&[1usize << 20, (1 << 20) + 4096, 3 << 19]) + rng.below(64) } else { 0 };
+        let (from_bit, to_bit) = if pad_bytes > 0 { (from_bit.min(64), total + pad_bytes * 8 - rng.below(9)) } else { (from_bit, to_bit) };
+        let mut case = Case { bytes, from_bit, to_bit, steps: Vec::new(), pad_bytes };
         let mut sim = Sim::new(&case);
-        let n = 3 + rng.below(48);
+        // every step renders the whole input several times: keep megabyte cases short
+        let n = if pad_bytes > 0 { 3 + rng.below(7) } else { 3 + rng.below(48) };
         let mut st = Stats::new();
         for _ in 0..n {
             let step = gen_step(rng, &sim);
@@ -726,6 +743,14 @@ impl Engine for Cursor {
 
     fn shrink(case: &Case) -> Vec<Case> {
         let mut out = Vec::new();
+        if case.pad_bytes > 0 {
+            for p in [0, case.pad_bytes / 2] {
+                let mut c = case.clone();
+                c.pad_bytes = p;
+                c.to_bit = c.to_bit.min((c.bytes.len() + p) * 8);
+                out.push(c);
+            }
+        }
         let n = case.steps.len();
         let mut size = n / 2;
         while size >= 1 {
@@ -783,6 +808,7 @@ impl Engine for Cursor {
             "bytes" => hex_encode(&c.bytes),
             "from_bit" => c.from_bit,
             "to_bit" => c.to_bit,
+            "pad_bytes" => c.pad_bytes,
             "steps" => Json::Arr(steps)
         }
     }
@@ -792,6 +818,6 @@ impl Engine for Cursor {
         for s in j.f_arr("steps")? {
             steps.push(Step { args: json_strs(s, "args")?, word: s.f_str("word")?, stackfail: s.f_opt_usize("stackfail")?, in_meta: s.f_bool("in_meta")? });
         }
-        Ok(Case { bytes: hex_decode(&j.f_str("bytes")?)?, from_bit: j.f_usize("from_bit")?, to_bit: j.f_usize("to_bit")?, steps })
+        Ok(Case { bytes: hex_decode(&j.f_str("bytes")?)?, from_bit: j.f_usize("from_bit")?, to_bit: j.f_usize("to_bit")?, steps, pad_bytes: j.get("pad_bytes").and_then(|x| x.int()).unwrap_or(0) as usize })
     }
 }
